@@ -49,91 +49,6 @@ def QGood (target : MG Name) (ds : List Domain) (o c : Event) : Prop :=
   ∀ dstar dNames q simplified, line2C target o c = .ok (dstar, dNames) →
     ctfTRu target ds dstar = .ok (some (q, some simplified)) → TrDsl.isZero q = false ∧ VocabOK target ds q
 
-/-- **Algorithm 3 never raises outside its crash classes** (composition theorem).  For an input accepted by the
-conditional validator, on graphs built by `from_edges`, with selection diagrams that agree with the target graph
-(`DomainsAgree`, as for Algorithm 2) and query variables as the public wrapper builds them (`EventVarsPlain`), `ctfTR`
-returns an answer or FAIL provided
-* `OutcomesFound`: every outcome variable is found in the ancestral components under its own name,
-* `DstarOneWorld`: `D*` names every graph vertex in one world,
-* `OutcomeNotCondition`: no outcome shares its vertex with a condition,
-* `PopsCoverNodes`: every vertex is a variable of some domain's distribution,
-* `QGood`: the expression returned by Algorithm 2 is not `Zero()` and has the expected vocabulary. -/
-theorem ctfTR_total_of_parts (target : MG Name) (ds : List Domain) (o c : Event)
-    (hv : validateC target ds o c = .ok ()) (hwf : target.WF) (hds : ∀ d ∈ ds, d.graph.WF)
-    (hdom : DomainsAgree target ds) (hplain : EventVarsPlain (o ++ c))
-    (hfound : OutcomesFound target o c = true) (hone : DstarOneWorld target o c = true)
-    (hdisj : OutcomeNotCondition o c = true) (hpop : PopsCoverNodes target ds) (hq : QGood target ds o c) :
-    ∀ err, ctfTR target ds o c ≠ .error err := by
-  obtain ⟨hstrict, hone', _, hnodes, _, hac, _⟩ := validateC_facts target ds o c hv
-  have hloop : ∀ v, ¬ target.DiEdge v v := fun v hvv =>
-    ((isAcyclic_iff target hwf).1 hac) v (TransGen.single hvv)
-  have hok : ∀ p ∈ o ++ c, VarOK target p.1 := by
-    intro p hp
-    refine ⟨hnodes p ?_, Or.inr ⟨(hplain p hp).2.1, (hplain p hp).1⟩⟩
-    rcases List.mem_append.1 hp with h | h
-    · exact List.mem_append_right _ h
-    · exact List.mem_append_left _ h
-  obtain ⟨D, dstar, dNames, hD, h2, hDn, hfacts⟩ := line2C_ok target hwf o c
-    (fun p hp => hok p (List.mem_append_left _ hp)) (fun p hp => hok p (List.mem_append_right _ hp))
-  -- the input classes
-  have hfound' : ∀ p ∈ o, p.1 ∈ D := by
-    unfold OutcomesFound at hfound
-    rw [hD] at hfound
-    intro p hp
-    exact (mem'_iff _ _).1 (List.all_eq_true.1 hfound p hp)
-  have hnd : (D.map (·.name)).Nodup := by
-    unfold DstarOneWorld at hone
-    rw [hD] at hone
-    simpa using hone
-  have hdisj' : ∀ p ∈ o, ∀ r ∈ c, p.1.name ≠ r.1.name := by
-    intro p hp r hr
-    unfold OutcomeNotCondition at hdisj
-    have := List.all_eq_true.1 (List.all_eq_true.1 hdisj p hp) r hr
-    simpa using this
-  -- D* is accepted by the unconditional validator
-  obtain ⟨p0, hp0⟩ := List.exists_mem_of_ne_nil _ hone'
-  obtain ⟨q0, hq0, _, hq0v⟩ := hfacts.found p0 hp0 (hfound' p0 hp0)
-  have hvU : validateU target ds dstar = .ok () := by
-    apply validateU_dstar target ds o c hv dstar
-    · intro h0; rw [h0] at hq0; cases hq0
-    · intro q hq; exact (hfacts.var hDn q hq).1
-    · exact ⟨q0, hq0, by rw [hq0v]; exact hstrict p0 (List.mem_append_left _ hp0)⟩
-    · intro q hq i hi
-      obtain ⟨p, hp, hpn, hpv, _⟩ := hfacts.value q hq i hi
-      exact ⟨p, hp, hpn, hpv⟩
-  -- Algorithm 2 on D*
-  have hcls : CrashClassU dstar = false := by
-    have : Reflexive dstar = false := by
-      cases hr : Reflexive dstar with
-      | false => rfl
-      | true =>
-        exfalso
-        unfold Reflexive at hr
-        obtain ⟨p, hp, hpr⟩ := List.any_eq_true.1 hr
-        obtain ⟨i, hi, hin⟩ := List.any_eq_true.1 hpr
-        have hedge := (hfacts.var hDn p hp).2.2.2.2 i hi
-        rw [show i.name = p.1.name by simpa using hin] at hedge
-        exact hloop _ hedge
-    simp [CrashClassU, this]
-  have hplainD : EventVarsPlain dstar := by
-    intro p hp
-    obtain ⟨_, hs, hi, hn, _⟩ := hfacts.var hDn p hp
-    exact ⟨hs, hi, hn⟩
-  have hUtotal := ctfTRu_total_of_class target ds dstar hvU hwf hds hcls hplainD hdom
-  have hU : ∃ r, ctfTRu target ds dstar = .ok r := by
-    cases hr : ctfTRu target ds dstar with
-    | ok r => exact ⟨r, rfl⟩
-    | error err => exact absurd hr (hUtotal err)
-  -- line 4
-  obtain ⟨r, hr⟩ := ctfTR_of_parts target ds o c hv dstar dNames h2 hU (by
-    intro q simplified hqs
-    obtain ⟨hqnz, hvocab⟩ := hq dstar dNames q simplified h2 hqs
-    have hsim := simplify_output_values target dstar simplified (ctfTRu_simplified target ds dstar simplified q hqs)
-    exact line4C_ok target ds o c D dstar dNames q simplified hfacts hstrict hsim hnd hfound' hdisj' hqnz hvocab hpop)
-  intro err herr
-  rw [hr] at herr
-  cases herr
-
 /-! ### a decidable form of `QGood` and `PopsCoverNodes` (for concrete inputs) -/
 
 theorem qGood_of_check (target : MG Name) (ds : List Domain) (o c : Event) (h : qGoodCheck target ds o c = true) :
